@@ -31,7 +31,7 @@ def bounds(tier):
         "L1_core_max_len": 8 if tier == "quick" else 10,
         "L1_struct_alphabet": SIGMA_VAL_STRUCT,
         "L1_struct_max_len": 11 if tier == "quick" else 13,
-        "L2_entries": "6 heads x 4 keys x field lists (<=2 over 17 values, 3 over 6) x 2 comma forms x 5 whitespace forms + single-gap family",
+        "L2_entries": f"{len(HEADS)} heads x {len(KEYS)} keys x field lists (<=2 over {len(VALUES)} values, 3 over {len(VALUES_SMALL)}) x 2 comma forms x {len(WS_FORMS)} whitespace forms + single-gap family",
         "L3_max_blocks": 2 if tier == "quick" else 3,
         "big_documents_entries": bigdocs.SIZES_QUICK if tier == "quick" else bigdocs.SIZES_THOROUGH,
         "L4_alphabet": spaces.SIGMA_DOC,
